@@ -139,6 +139,9 @@ type RunOpts struct {
 	RetryLimit int
 	// Setup only: do not run the copy.
 	SetupOnly bool
+	// NoClose leaves the client open after the copy: the target is then judged as the copy left it,
+	// not as a garbage collection of unreachable content (legitimate after a failed copy) left it.
+	NoClose bool
 }
 
 var procsMu sync.Mutex
@@ -368,7 +371,9 @@ func Run(c Case, o RunOpts) *Result {
 	r.Phase.Lock()
 	r.Returned = true
 	r.Phase.Unlock()
-	_ = rc.Close(ctx, r.Tgt.Ref(r.TgtTag))
+	if !o.NoClose {
+		_ = rc.Close(ctx, r.Tgt.Ref(r.TgtTag))
+	}
 	r.W.WaitIdle()
 	r.Events = r.W.Log()
 	h := sha256.New()
